@@ -210,6 +210,8 @@ pub struct CmdSpec {
     /// the subcommands are added inside a `Command::defer` closure; they must then be exactly the
     /// fixed `leaf` (flag `z`: `-z`, `--zulu`), because a deferred closure cannot capture anything
     pub subs_deferred: bool,
+    /// `Command::next_display_order(None)`: no running display order (alphabetical listing)
+    pub next_display_order_none: bool,
     /// argument ids passed through `Command::mut_arg(id, |a| a)` after the definition is complete
     /// (an identity edit: re-inserts the argument at the end of the argument list)
     pub touch: Vec<String>,
@@ -418,11 +420,10 @@ pub fn build_arg(s: &ArgSpec) -> Arg {
     if s.hide {
         a = a.hide(true);
     }
-    if s.hide_short_help {
-        a = a.hide_short_help(true);
-    }
-    if s.hide_long_help {
-        a = a.hide_long_help(true);
+    // per-mode hiding: when either is asked for, both setters are called, the other one with
+    // `false` (saying "not hidden" must not disturb the other mode)
+    if s.hide_short_help || s.hide_long_help {
+        a = a.hide_short_help(s.hide_short_help).hide_long_help(s.hide_long_help);
     }
     if s.next_line_help {
         a = a.next_line_help(true);
@@ -681,6 +682,9 @@ fn deferred_fn(st: Setting) -> fn(Command) -> Command {
 }
 
 fn build_rest(mut c: Command, s: &CmdSpec) -> Command {
+    if s.next_display_order_none {
+        c = c.next_display_order(None);
+    }
     for st in &s.toggled {
         c = apply_setting(apply_setting(c, *st, true), *st, false);
     }
